@@ -457,7 +457,8 @@ ABS_URLS = ["http://192.168.1.2:49152/x/%s", "http://other.example/%s.xml", "htt
 TEXTS = ["", "A", "Acme Corp", "Living Room <TV> & \"Radio\"", "Süßes Gerät 漢字 🎵", " padded ", "a]]>b", "1.0", "x" * 40,
          "line1\nline2", "tab\there"]
 VALID_TEXT = {
-    "int": ["0", "1", "-5", "100", "+7", " 12 ", "65535", "1_000", "4294967296"],
+    "int": ["0", "1", "-5", "100", "+7", " 12 ", "65535", "1_000", "4294967296",
+            "18446744073709551615", "9223372036854775807", "-9223372036854775807", "9007199254740993"],
     "float": ["0", "1.5", "-2.5e3", "100", "inf", ".5", " 3.25 "],
     "str": ["a", "PLAYING", "STOPPED", "x y", "Ünï", "NOT_IMPLEMENTED", "0"],
     "bool": ["1", "0", "true", "false", "yes", "no", "TRUE", "Yes"],
